@@ -221,9 +221,20 @@ pub fn c06_instances(tier: Tier) -> Vec<Instance> {
                 i.pending_budget = 2; // tokio: Pending; blocking: Interrupted
                 i.tick_budget = if imp == Impl::Tokio { if tier == Tier::Thorough { 2 } else { 1 } } else { 0 };
                 i.storm_budget = 1;
+                if imp == Impl::Tokio && seq.len() <= 2 {
+                    let mut v = i.clone();
+                    v.label = format!("{}#vectored", i.label);
+                    v.vectored = true;
+                    v.tick_budget = 0;
+                    out.push(v);
+                }
                 out.push(i);
             }
         }
+    }
+    // writes issued while a keep-alive reply is still half sent (the read that owed it was dropped)
+    for c in [true, false] {
+        out.extend(drop_write_instances(c, "after-dropped-read"));
     }
     // a long session of writes: 100 (quick) / 300 (thorough) packets of mixed sizes on one connection,
     // every call accepting one byte or everything, one storm of not-ready answers anywhere
@@ -604,7 +615,11 @@ fn drop_write_instances(c: bool, family: &str) -> Vec<Instance> {
             i.cancel_writes = true;
             i.isi_via_handshake = *via_handshake;
             i.pending_budget = 1;
+            let mut v = i.clone();
+            v.label = format!("{}#vectored", i.label);
+            v.vectored = true;
             out.push(i);
+            out.push(v);
         }
     }
     }
